@@ -417,3 +417,117 @@ package core
 //@   fresh
 //@   ensures shape: soff(result) == 0 && len(result) == hvlen(h)
 //@   ensures elems: forall j :: 0 <= j && j < len(result) ==> result[j] == hvstr(h, j)
+
+// ---- C06: no traveler can crash a step (sweep over the remaining simple processors) --------
+// Input model: items of the input are non-nil travelers; a traveler may carry no current
+// element (null-producing steps), unloaded data, no marks.
+//@ func (*Fields).Process$1
+//@   property C06
+//@   option prelude=trav,json
+//@   option load=gdbi,gripql,jsonpath
+//@   nopanic
+//@   requires fresh: rd(in) == 0 && !closed(out) && in != out && out != nil && in != nil
+//@   requires recv: f != nil
+//@   requires items: forall j :: 0 <= j && j < len(in) ==> in[j] != nil
+//@   loop 1 invariant open: !closed(out) && 0 <= rd(in) && rd(in) <= len(in)
+
+//@ func (*Render).Process$1
+//@   property C06
+//@   option prelude=trav,json
+//@   option load=gdbi,gripql,jsonpath
+//@   nopanic
+//@   requires fresh: rd(in) == 0 && !closed(out) && in != out && out != nil && in != nil
+//@   requires recv: r != nil
+//@   requires items: forall j :: 0 <= j && j < len(in) ==> in[j] != nil
+//@   loop 1 invariant open: !closed(out) && 0 <= rd(in) && rd(in) <= len(in)
+
+//@ func (*Path).Process$1
+//@   property C06
+//@   option prelude=trav,json
+//@   option load=gdbi,gripql,jsonpath
+//@   nopanic
+//@   requires fresh: rd(in) == 0 && !closed(out) && in != out && out != nil && in != nil
+//@   requires items: forall j :: 0 <= j && j < len(in) ==> in[j] != nil
+//@   loop 1 invariant open: !closed(out) && 0 <= rd(in) && rd(in) <= len(in)
+
+//@ func (*Unwind).Process$1
+//@   property C06
+//@   option prelude=trav,json
+//@   option load=gdbi,gripql,jsonpath
+//@   nopanic
+//@   requires fresh: rd(in) == 0 && !closed(out) && in != out && out != nil && in != nil
+//@   requires recv: r != nil
+//@   requires items: forall j :: 0 <= j && j < len(in) ==> in[j] != nil
+//@   loop 1 invariant open: !closed(out) && 0 <= rd(in) && rd(in) <= len(in)
+
+//@ func (*HasKey).Process$1
+//@   property C06
+//@   option prelude=trav,json
+//@   option load=gdbi,gripql,jsonpath
+//@   nopanic
+//@   requires fresh: rd(in) == 0 && !closed(out) && in != out && out != nil && in != nil
+//@   requires recv: h != nil
+//@   requires items: forall j :: 0 <= j && j < len(in) ==> in[j] != nil
+//@   loop 1 invariant open: !closed(out) && 0 <= rd(in) && rd(in) <= len(in)
+
+//@ func (*Distinct).Process$1
+//@   property C06
+//@   option prelude=trav,json
+//@   option load=gdbi,gripql,jsonpath
+//@   nopanic
+//@   requires man: man != nil
+//@   requires fresh: rd(in) == 0 && !closed(out) && in != out && out != nil && in != nil
+//@   requires recv: g != nil
+//@   requires items: forall j :: 0 <= j && j < len(in) ==> in[j] != nil
+//@   loop 1 invariant open: !closed(out) && 0 <= rd(in) && rd(in) <= len(in)
+
+//@ func (*Marker).Process$1
+//@   property C06
+//@   option prelude=trav,json
+//@   option load=gdbi,gripql,jsonpath
+//@   nopanic
+//@   requires fresh: rd(in) == 0 && !closed(out) && in != out && out != nil && in != nil
+//@   requires recv: m != nil
+//@   requires items: forall j :: 0 <= j && j < len(in) ==> in[j] != nil
+//@   loop 1 invariant open: !closed(out) && 0 <= rd(in) && rd(in) <= len(in)
+
+//@ func (*Selector).Process$1
+//@   property C06
+//@   option prelude=trav,json
+//@   option load=gdbi,gripql,jsonpath
+//@   nopanic
+//@   requires fresh: rd(in) == 0 && !closed(out) && in != out && out != nil && in != nil
+//@   requires recv: s != nil
+//@   requires items: forall j :: 0 <= j && j < len(in) ==> in[j] != nil
+//@   loop 1 invariant open: !closed(out) && 0 <= rd(in) && rd(in) <= len(in)
+
+//@ func (*ValueSet).Process$1
+//@   property C06
+//@   option prelude=trav,json
+//@   option load=gdbi,gripql,jsonpath
+//@   nopanic
+//@   requires fresh: rd(in) == 0 && !closed(out) && in != out && out != nil && in != nil
+//@   requires recv: s != nil
+//@   requires items: forall j :: 0 <= j && j < len(in) ==> in[j] != nil
+//@   loop 1 invariant open: !closed(out) && 0 <= rd(in) && rd(in) <= len(in)
+
+//@ func (*ValueIncrement).Process$1
+//@   property C06
+//@   option prelude=trav,json
+//@   option load=gdbi,gripql,jsonpath
+//@   nopanic
+//@   requires fresh: rd(in) == 0 && !closed(out) && in != out && out != nil && in != nil
+//@   requires recv: s != nil
+//@   requires items: forall j :: 0 <= j && j < len(in) ==> in[j] != nil
+//@   loop 1 invariant open: !closed(out) && 0 <= rd(in) && rd(in) <= len(in)
+
+//@ func (*MarkSelect).Process$1
+//@   property C06
+//@   option prelude=trav,json
+//@   option load=gdbi,gripql,jsonpath
+//@   nopanic
+//@   requires fresh: rd(in) == 0 && !closed(out) && in != out && out != nil && in != nil
+//@   requires recv: s != nil
+//@   requires items: forall j :: 0 <= j && j < len(in) ==> in[j] != nil
+//@   loop 1 invariant open: !closed(out) && 0 <= rd(in) && rd(in) <= len(in)
+
